@@ -51,6 +51,10 @@ Step(e) ==
                 IN /\ (want = "unjudged") => Note("configuration inside the wide band around a boundary between kinds: kind not judged")
                    /\ (~KindOK(e.kind, want)) => Mismatch(l, e, [exact_kind |-> want])
                    /\ (~ptsok) => Mismatch(l, e, "the reported point does not lie on both lines within 1e-7")
+           [] e.ev = "par" ->
+                \* parallel() is TRUE for parallel (or identical) lines and FALSE for lines that clearly cross
+                LET want == LLKind(P(e.a, e.s), P(e.b, e.s), P(e.c, e.s), P(e.d, e.s))
+                IN (want # "unjudged" /\ e.res # (want = "None")) => Mismatch(l, e, [exact_kind |-> want])
            [] e.ev = "pos" ->
                 LET want == PosKind(P(e.p, e.s), P(e.c, e.s), Up(e.r, e.s))
                 IN (~KindOK(e.kind, want)) => Mismatch(l, e, [exact_kind |-> want])
